@@ -110,41 +110,176 @@ def mask_writers(run, fi, mask_name, allowed):
 
 
 def confine(run, db, qual, zipped, center=None):
+    """compose_opd, decided on what is added into the output: interpreted with tokens for the object's lists (loops over zipped lists run
+    once), every write into the output must be an accumulation `out[w] += modes(base, c) * m` where (w, m) are the same segment's window and
+    mask of the lock-stepped pair of lists `zipped` (or the centre pair), and every such pair is written."""
+    from ..core.interp import Interp, Domain, Value, Const, Tup, Unknown, Obj, _Break, _Continue
     fi = db.func(qual)
-    loops = [n for n in walk_no_nested(fi.node) if isinstance(n, ast.For) and isinstance(n.iter, ast.Call) and ast.unparse(n.iter.func) == 'zip']
-    if len(loops) != 1:
-        raise AnalysisError('%s: loop over the zipped segment lists not found' % qual)
-    lp = loops[0]
-    args = [ast.unparse(a) for a in lp.iter.args]
-    tnames = [ast.unparse(e) for e in lp.target.elts] if isinstance(lp.target, ast.Tuple) else []
-    run.check(args[:2] == zipped, 'C18.confine', fi.qual, 'zipped lists', 'windows and masks are zipped from the lock-stepped lists %s' % zipped, 'compose_opd zips %s' % args, fi.loc(lp))
-    if len(tnames) < 4:
-        raise AnalysisError('%s: loop target is not (win, mask, base, c)' % qual)
-    win, mask, base, c = tnames[:4]
-    body = lp.body
-    idx = {}
-    OUT = TILE = None
-    for pats in (['V_tile = sum_of_2d_modes(%s, %s)' % (base, c), 'V_tile *= %s' % mask, 'V_out[%s] += V_tile' % win],
-                 ['V_tile = sum_of_2d_modes(%s, %s)' % (base, c), 'V_tile = V_tile * %s' % mask, 'V_out[%s] += V_tile' % win],
-                 ['V_tile = sum_of_2d_modes(%s, %s)' % (base, c), 'V_out[%s] += V_tile * %s' % (win, mask)]):
-        bm = match_all(body, pats, ordered=True)
-        if bm is not None:
-            OUT, TILE = bm['V_out'], bm['V_tile']
-            nodes = bm['@nodes']
-            idx = {'tile': body.index(nodes[0]), 'mask': body.index(nodes[1]), 'acc': body.index(nodes[-1])}
-            break
-    ok = 'tile' in idx and 'mask' in idx and 'acc' in idx and idx['tile'] < idx['acc'] and idx['tile'] <= idx['mask'] <= idx['acc']
-    run.check(ok, 'C18.confine', fi.qual, 'mask before accumulate', "the tile is multiplied by the segment's own mask before it is added into the segment's own window",
-              'compose_opd does not multiply the tile by the zipped mask before `out[win] += tile` (statements: %s)' % [ast.unparse(s) for s in body], fi.loc(lp))
-    def _base_name(st):
-        t = st.targets[0] if isinstance(st, ast.Assign) else st.target
-        b_ = t.value if isinstance(t, ast.Subscript) else t
-        return b_.id if isinstance(b_, ast.Name) else None
-    others = [st for st in body if isinstance(st, (ast.Assign, ast.AugAssign)) and OUT is not None and _base_name(st) == OUT and body.index(st) != idx.get('acc')]
-    run.check(not others, 'C18.confine', fi.qual, 'single accumulation', 'the output is written once per segment', 'the output is written more than once per segment', fi.loc(lp))
+    pairs = [tuple(z.replace('self.', '') for z in zipped)]
     if center:
-        okc = OUT is not None and (match_all(fi.node, ['%s[self.center_window] += V_t * self.center_mask' % OUT, 'V_t = sum_of_2d_modes(self.opd_bases[0], center_coefs)']) is not None)
-        run.check(okc, 'C18.confine', fi.qual, 'centre segment', 'the centre tile is masked by the centre mask and ADDED into the centre window', 'centre segment composition changed', fi.loc())
+        pairs.append(('center_window', 'center_mask'))
+
+    class Tok(Value):
+        def __init__(self, kind, *args):
+            self.kind, self.args = kind, args
+
+        def __repr__(self):
+            return '%s(%s)' % (self.kind, ', '.join(map(repr, self.args)))
+
+    class CDomain(Domain):
+        def __init__(self):
+            self.writes = []
+
+        def param(self, fi_, name, default):
+            if fi_ is fi and name != 'out':
+                return Tok('param', name)
+            return None
+
+        def getattr(self, v, name, node):
+            if isinstance(v, Obj):
+                return Tok('attr', name)
+            return None
+
+        def call_prysm(self, fi_, args, kw, node):
+            if fi_.name == 'sum_of_2d_modes':
+                a = list(args) + [kw.get('modes'), kw.get('weights')]
+                return Tok('tile', a[0], a[1])
+            if fi_.module != fi.module:
+                return Unknown(fi_.name)
+            return None
+
+        def call_ext(self, dotted, args, kwargs, node):
+            last = dotted.rsplit('.', 1)[-1]
+            if last in ('zeros_like', 'zeros', 'empty_like', 'empty') and dotted.startswith('numpy.'):
+                return Tok('out')
+            if dotted == 'builtins.zip' and args and any(isinstance(a, Tok) for a in args):
+                return Tok('zip', list(args))
+            if dotted in ('builtins.list', 'builtins.tuple') and args and isinstance(args[0], Tok):
+                return args[0]
+            return None
+
+        def subscript(self, v, idx, node):
+            if isinstance(v, Tok) and v.kind == 'out':
+                return Tok('slot', v, idx)
+            if isinstance(v, Tok) and v.kind in ('attr', 'param', 'part'):
+                if type(idx).__name__ == 'Slice':
+                    return Tok('part', v, idx)
+                return Tok('item', v, idx)
+            return None
+
+        def binop(self, op, a, b, node):
+            if isinstance(op, ast.Mult):
+                for t_, m_ in ((a, b), (b, a)):
+                    if isinstance(t_, Tok) and t_.kind == 'tile' and isinstance(m_, Tok) and m_.kind in ('elem', 'attr', 'item'):
+                        return Tok('masked', t_, m_)
+            if isinstance(op, ast.Add) and isinstance(a, Tok) and a.kind == 'slot':
+                return Tok('sum', a, b)
+            if isinstance(op, ast.Add) and isinstance(b, Tok) and b.kind == 'slot':
+                return Tok('sum', b, a)
+            return None
+
+        def store_subscript(self, target, idx, val, node):
+            if isinstance(target, Tok) and target.kind == 'out':
+                if isinstance(val, Tok) and val.kind == 'sum' and val.args[0].args[0] is target and same_tok(val.args[0].args[1], idx):
+                    self.writes.append(('add', idx, val.args[1], node))
+                else:
+                    self.writes.append(('set', idx, val, node))
+            return True
+
+        def method(self, v, name, args, kwargs, node):
+            return None
+
+        def loop(self, node, frame):
+            if not isinstance(node, ast.For):
+                return False
+            src = self.interp.ev(node.iter, frame)
+            if isinstance(src, Tok) and src.kind == 'zip' and isinstance(node.target, ast.Tuple) and len(node.target.elts) == len(src.args[0]):
+                for e_, m_ in zip(node.target.elts, src.args[0]):
+                    self.interp.assign(e_, Tok('elem', m_, id(node)) if isinstance(m_, Tok) else Unknown('entry of a concrete list zipped with the object\'s lists'), frame, node)
+            elif isinstance(src, Tok) and src.kind in ('attr', 'part', 'param'):
+                self.interp.assign(node.target, Tok('elem', src, id(node)), frame, node)
+            else:
+                return False
+            try:
+                self.interp.exec_block(node.body, frame)
+            except (_Break, _Continue):
+                pass
+            return True
+
+    def same_tok(a, b):
+        if a is b:
+            return True
+        if isinstance(a, Tok) and isinstance(b, Tok) and a.kind == b.kind and len(a.args) == len(b.args):
+            return all(same_tok(x_, y_) if isinstance(x_, Value) else x_ == y_ for x_, y_ in zip(a.args, b.args))
+        if isinstance(a, Const) and isinstance(b, Const):
+            return a.v == b.v
+        return False
+
+    def lname(t):
+        """the attribute a window / mask token comes from, and the loop it is an element of (None: used directly)"""
+        if isinstance(t, Tok) and t.kind == 'elem':
+            src = t.args[0]
+            while isinstance(src, Tok) and src.kind == 'part':
+                src = src.args[0]
+            return (src.args[0] if isinstance(src, Tok) and src.kind == 'attr' else None), t.args[1]
+        if isinstance(t, Tok) and t.kind == 'attr':
+            return t.args[0], None
+        return None, None
+
+    def part_of(t):
+        """which part of its list an element token walks over ('' = the whole list)"""
+        out = []
+        src = t.args[0] if isinstance(t, Tok) and t.kind == 'elem' else None
+        while isinstance(src, Tok) and src.kind == 'part':
+            sl = src.args[1]
+            out.append('[%r:%r:%r]' % (getattr(sl, 'lo', None), getattr(sl, 'hi', None), getattr(sl, 'step', None)))
+            src = src.args[0]
+        return ''.join(out)
+
+    dom = CDomain()
+    it = Interp(db, dom)
+    ci = db.cls(qual.rsplit('.', 1)[0])
+    out_tok = Tok('out')
+    res = it.run(fi, kwargs=lambda: {'out': out_tok}, self_obj=lambda: Obj(ci))
+    rets = [p_ for p_ in res if p_.outcome == 'return']
+    if not rets:
+        raise AnalysisError('%s: no returning path' % qual)
+    writes = {}
+    for w in dom.writes:
+        writes[(id(w[3]), w[0], lname(w[1])[0], repr(w[2])[:200])] = w
+    if not writes:
+        raise AnalysisError('%s: no write into the output array is followed' % qual)
+    done = set()
+    for kind, win, val, node in writes.values():
+        wl, wloop = lname(win)
+        key = 'write `%s`' % norm_stmt(node)[:50]
+        if kind != 'add':
+            run.check(False, 'C18.confine', fi.qual, key, '', "the output is ASSIGNED at a segment's window instead of being added to: whatever earlier segments (or the caller's `out`) put there is lost", fi.loc(node))
+            continue
+        if isinstance(val, Tok) and val.kind == 'tile':
+            run.check(False, 'C18.confine', fi.qual, key, '', "the tile is added into the window without being multiplied by the segment's mask: the modes spill over the whole bounding box of the segment", fi.loc(node))
+            continue
+        if not (isinstance(val, Tok) and val.kind == 'masked'):
+            raise AnalysisError('%s: what is added into the output at `%s` is not followed (%r)' % (qual, norm_stmt(node), val))
+        tile, m = val.args
+        ml, mloop = lname(m)
+        if wl is None or ml is None:
+            raise AnalysisError('%s: window / mask of `%s` are not followed to the object\'s lists (%r, %r)' % (qual, norm_stmt(node), win, m))
+        ok = (wl, ml) in pairs and wloop == mloop and part_of(win) == part_of(m)
+        if ok and wloop is not None:
+            b_, c_ = tile.args
+            ok = all(isinstance(z, Tok) and z.kind == 'elem' and z.args[1] == wloop for z in (b_, c_))
+        if ok:
+            done.add((wl, ml))
+        run.check(ok, 'C18.confine', fi.qual, key, "the tile of a segment is multiplied by the segment's own mask (%s) and added into its own window (%s), all taken from one pass over the zipped lists" % (ml, wl),
+                  "the tile built from %r is multiplied by an entry of %s and added into a window from %s (%s): the composed OPD of a segment is not confined to that segment"
+                  % (tile.args[0], ml + part_of(m), wl + part_of(win), 'different loops' if wloop != mloop else 'not the same entries of a lock-stepped pair; expected one of %s' % pairs), fi.loc(node))
+    missing = [p_ for p_ in pairs if p_ not in done]
+    run.check(not missing, 'C18.confine', fi.qual, 'every segment family composed', 'every (window, mask) family of the aperture is accumulated: %s' % pairs,
+              'nothing is accumulated through %s (the centre segment / the keystones are left out, or overwritten instead of added)' % missing, fi.loc())
+    for p_ in rets:
+        if p_.value is not out_tok and not (isinstance(p_.value, Tok) and p_.value.kind == 'out'):
+            raise AnalysisError('%s: the returned value is not the output array on path %s' % (qual, p_.conds))
 
 
 def separable_rules(run, db):
@@ -166,75 +301,183 @@ def separable_rules(run, db):
                       'optimize_xy_separable returns shapes %s for %s, expected %s: x and y exchange roles (the masks of the primitives built on it come out transposed)' % (got, label, want), f.loc())
 
 
+def _keystone_roles(fk):
+    """{key of the returned dictionaries: local name}"""
+    rk = [n for n in walk_no_nested(fk.node) if isinstance(n, ast.Return)]
+    if len(rk) != 1:
+        raise AnalysisError('keystone aperture: single return not found')
+    krole = {}
+    for dnode in [n for n in ast.walk(rk[0].value) if isinstance(n, ast.Dict)]:
+        for k_, v_ in zip(dnode.keys, dnode.values):
+            if isinstance(k_, ast.Constant) and isinstance(v_, ast.Name):
+                krole[k_.value] = v_.id
+    return krole
+
+
 def band_rules(run, db):
-    """Keystone rings: the radial band of a ring is half-open, so that with zero radial gap a sample exactly on a shared ring
-    radius belongs to one ring only."""
-    from ..core.interp import Interp, Frame
+    """Keystone rings: the radial band of a ring is half-open, so that with zero radial gap a sample exactly on a shared ring radius
+    belongs to one ring only.  One pass of the ring loop is interpreted with masks as predicates over the radial / azimuthal grids;
+    the radial extent of the mask recorded for a segment is judged (the azimuthal conjuncts are left free)."""
+    from ..core.interp import Interp, Value, Const, Tup, Unknown, _Break, _Continue
     from ..core.norm import Rat
-    from ..domains.normdom import install_pi
+    from ..domains.normdom import install_pi, Sym
     from ..domains.pred import PredDomain, Pred, eval_pred
+    from .common import loop_as_function
     fk = db.func(S + '_composite_keystone_aperture')
-    # the ring band is the mask built from circle()/annulus() of the radial grid inside the ring loop
-    cdefs = {}
-    for n in ast.walk(fk.node):
-        if isinstance(n, ast.Assign) and isinstance(n.targets[0], ast.Name) and isinstance(n.value, ast.Call) and ast.unparse(n.value.func) in ('circle', 'annulus'):
-            cdefs[n.targets[0].id] = n
-    arcs = []
-    for n in ast.walk(fk.node):
-        if isinstance(n, ast.Assign) and isinstance(n.targets[0], ast.Name):
-            v = n.value
-            names = {x.id for x in ast.walk(v) if isinstance(x, ast.Name)}
-            if isinstance(v, ast.BinOp) and len(names & set(cdefs)) >= 2:
-                arcs.append(n)
-            elif isinstance(v, ast.Call) and ast.unparse(v.func) == 'annulus' and n.targets[0].id not in cdefs:
-                arcs.append(n)
-    if not arcs:
-        arcs = [cdefs[k] for k in cdefs if ast.unparse(cdefs[k].value.func) == 'annulus']
-    if len(arcs) != 1:
-        raise AnalysisError('keystone aperture: the ring band (a combination of two circle() masks, or an annulus()) was not found uniquely (%d candidates)' % len(arcs))
-    # its two radii and the radial grid, as the circle()/annulus() calls name them
-    used_ = {x.id for x in ast.walk(arcs[0].value) if isinstance(x, ast.Name)}
-    calls_ = [cdefs[k].value for k in cdefs if k in used_] if isinstance(arcs[0].value, ast.BinOp) else [arcs[0].value]
-    radii, grids = [], set()
-    for c in calls_:
-        if ast.unparse(c.func) == 'circle' and len(c.args) == 2:
-            radii.append(ast.unparse(c.args[0]))
-            grids.add(ast.unparse(c.args[1]))
-        elif ast.unparse(c.func) == 'annulus' and len(c.args) == 3:
-            radii += [ast.unparse(c.args[0]), ast.unparse(c.args[1])]
-            grids.add(ast.unparse(c.args[2]))
-    radii = sorted(set(radii))
-    if len(radii) != 2 or len(grids) != 1:
-        raise AnalysisError('keystone aperture: the ring band does not compare one radial grid with two radii (%s, %s)' % (radii, sorted(grids)))
-    defs = {}
-    for n in ast.walk(fk.node):
-        if isinstance(n, ast.Assign) and isinstance(n.targets[0], ast.Name):
-            defs.setdefault(n.targets[0].id, []).append(n)
-    dom = PredDomain(coords=('r',))
+    MASKS = _keystone_roles(fk).get('masks')
+    if MASKS is None:
+        raise AnalysisError("keystone aperture: the returned dictionary has no 'masks' entry")
+    appended = lambda st: {ast.unparse(c_.func.value) for c_ in ast.walk(st) if isinstance(c_, ast.Call) and isinstance(c_.func, ast.Attribute) and c_.func.attr == 'append' and isinstance(c_.func.value, ast.Name)}
+    rings = [st for st in fk.node.body if isinstance(st, ast.For) and MASKS in appended(st)]
+    if len(rings) != 1:
+        raise AnalysisError('keystone aperture: ring loop not found')
+    ring = rings[0]
+    lists = appended(ring)
+    # the radial grid: first result of cart_to_polar (or a hypot of the grids)
+    RAD = None
+    for n in walk_no_nested(fk.node):
+        if isinstance(n, ast.Assign) and isinstance(n.value, ast.Call):
+            fn = ast.unparse(n.value.func)
+            if fn.endswith('cart_to_polar') and isinstance(n.targets[0], ast.Tuple) and isinstance(n.targets[0].elts[0], ast.Name):
+                RAD = n.targets[0].elts[0].id
+            elif fn.endswith('hypot') and isinstance(n.targets[0], ast.Name):
+                RAD = n.targets[0].id
+    if RAD is None:
+        raise AnalysisError('keystone aperture: the radial grid (cart_to_polar / hypot of the coordinate grids) was not found')
+    lf, params = loop_as_function(fk, ring, [MASKS])
+
+    class Win(Value):
+        pass
+
+    class BDomain(PredDomain):
+        def __init__(self):
+            PredDomain.__init__(self, coords=(RAD,))
+
+        def _coord(self, name):
+            import re as _re
+            if name not in self.coords:
+                self.coords.add(name)
+                self._rx = _re.compile(r'(?<![A-Za-z0-9_])(%s)(?![A-Za-z0-9_])' % '|'.join(sorted(self.coords)))
+
+        def call_prysm(self, fi_, args, kw, node):
+            if fi_.name == '_local_window':
+                return Win()
+            if fi_.module is not fk.module and not any(isinstance(a, Sym) and a.r.key() == RAD for a in list(args) + list(kw.values())):
+                return Unknown(fi_.name)
+            return None
+
+        def subscript(self, v, idx, node):
+            if isinstance(idx, Win):
+                if isinstance(v, Sym):
+                    self._coord(v.r.key())
+                    return v
+                return Unknown('window of %r' % (v,))
+            if isinstance(v, Sym):
+                return Unknown('entry')
+            return PredDomain.subscript(self, v, idx, node)
+
+        def loop(self, node, frame):
+            if isinstance(node, ast.While):
+                return True          # angle unwinding: zero turns
+            for leaf in ast.walk(node.target):
+                if isinstance(leaf, ast.Name) and isinstance(leaf.ctx, ast.Store):
+                    frame.env[leaf.id] = self.sym(leaf.id)
+            try:
+                self.interp.exec_block(node.body, frame)
+            except (_Break, _Continue):
+                pass
+            return True
+
+        def truth(self, v):
+            if isinstance(v, Pred):
+                return None
+            return PredDomain.truth(self, v)
+
+        def store_subscript(self, target, idx, val, node):
+            return True
+
+        def isinstance(self, v, names):
+            return None if not isinstance(v, Sym) else PredDomain.isinstance(self, v, names)
+
+    dom = BDomain()
     it = install_pi(Interp(db, dom))
-    it._reset_run([])
+    it.MAX_PATHS = max(getattr(it, 'MAX_PATHS', 0), 4000)
+    res = it.run(lf, kwargs=lambda: {p_: (Tup([], 'list') if p_ in lists else dom.sym(p_)) for p_ in params})
+    preds = []
+    for p_ in res:
+        if p_.outcome != 'return':
+            continue
+        lst = p_.value.items[0]
+        if isinstance(lst, Tup):
+            preds += [m_ for m_ in lst.items]
+    if not preds:
+        raise AnalysisError('keystone aperture: no segment mask reaches the end of a pass over the ring loop')
     R = dom.R
-    inner, g = Rat(R.atom('inner')), Rat(R.atom('gap'))
-    verdicts = []
-    for ra_, rb_ in ((radii[0], radii[1]), (radii[1], radii[0])):
-        fr = Frame(fk, fk.module, {ra_: dom.sym('inner'), rb_: dom.sym('outer'), sorted(grids)[0]: dom.sym('r')})
-        for nm in sorted({x.id for x in ast.walk(arcs[0].value) if isinstance(x, ast.Name)} - {ra_, rb_, sorted(grids)[0]}):
-            ds = defs.get(nm, [])
-            if len(ds) == 1:
-                fr.env[nm] = it.ev(ds[0].value, fr)
-        v = it.ev(arcs[0].value, fr)
-        if not isinstance(v, Pred):
-            raise AnalysisError('keystone aperture: the ring band is not a predicate over the radius: %r' % (v,))
-        at_in = eval_pred(v, {'r': inner, 'outer': inner + g}, {'gap', 'inner'})
-        at_out = eval_pred(v, {'r': inner + g, 'outer': inner + g}, {'gap', 'inner'})
-        mid = eval_pred(v, {'r': inner + g / 2, 'outer': inner + g}, {'gap', 'inner'})
+    zero, one = Rat(R.const(0)), Rat(R.const(1))
+
+    def radial_cmps(p):
+        if p.kind == 'cmp':
+            return [p] if RAD in {a_ for a_ in _atoms(p.args[1])} else []
+        if p.kind == 'const':
+            return []
+        return [c_ for a_ in p.args for c_ in radial_cmps(a_)]
+
+    def _atoms(r):
+        import re as _re
+        return set(_re.findall(r'[A-Za-z_][A-Za-z0-9_]*', r.key()))
+
+    def ev(p, subst, positive):
+        """exists-azimuth truth of the mask at one radius: comparisons that do not involve the radius are free"""
+        if p.kind == 'const':
+            return bool(p.args[0])
+        if p.kind == 'cmp':
+            if RAD not in _atoms(p.args[1]):
+                return 'free'
+            return eval_pred(p, subst, positive)
+        vals = [ev(a_, subst, positive) for a_ in p.args]
+        if p.kind == 'not':
+            return vals[0] if vals[0] in ('free', None) else (not vals[0])
+        if p.kind == 'and':
+            if any(v_ is False for v_ in vals):
+                return False
+            return None if any(v_ is None for v_ in vals) else True
+        if p.kind == 'or':
+            if any(v_ is True or v_ == 'free' for v_ in vals):
+                return True
+            return None if any(v_ is None for v_ in vals) else False
+        return None
+    judged = {}
+    for m in preds:
+        if not isinstance(m, Pred):
+            continue
+        cm = radial_cmps(m)
+        thr = {}
+        for c_ in cm:
+            d = c_.args[1]
+            d0, d1 = d.subs({RAD: zero}), d.subs({RAD: one})
+            k = d1 - d0
+            if k.is_zero():
+                continue
+            t_ = (zero - d0) / k
+            thr[t_.key()] = t_
+        if len(thr) != 2:
+            raise AnalysisError('keystone aperture: the radial extent of a segment mask does not have two boundary radii (%s)' % sorted(thr))
+        a, b = list(thr.values())
+        positive = (_atoms(a) | _atoms(b)) - {RAD}
+        lt = eval_pred(Pred('cmp', ('<0', a - b)), {}, positive)
+        if lt is None:
+            raise AnalysisError('keystone aperture: cannot order the two boundary radii %s and %s' % (a.key(), b.key()))
+        inner, outer = (a, b) if lt else (b, a)
+        at_in, at_out, mid = [ev(m, {RAD: r_}, positive) for r_ in (inner, outer, (inner + outer) / 2)]
         if at_in is None or at_out is None or mid is None:
-            raise AnalysisError('keystone aperture: could not evaluate the band %s on its boundaries' % v.key())
-        verdicts.append((mid, at_in, at_out))
-    mid, at_in, at_out = next((vd for vd in verdicts if vd[0]), verdicts[0])
-    run.check(mid is True and not (at_in and at_out), 'C18.band', fk.qual, 'ring band', 'the band of a ring contains its interior and at most one of its two boundary radii (half-open)',
-              'the ring band `%s` contains BOTH r = inner_radius and r = outer_radius%s: with radial_gap == 0 a sample exactly on the radius shared by two rings belongs to a segment of each ring '
-              '(two segments claim one sample)' % (ast.unparse(arcs[0].value), '' if mid else ' / misses its interior'), fk.loc(arcs[0]))
+            raise AnalysisError('keystone aperture: could not evaluate the segment mask %s on its boundary radii' % m.key()[:200])
+        judged[m.key()] = (mid, at_in, at_out, inner, outer, m)
+    if not judged:
+        raise AnalysisError('keystone aperture: no segment mask is a predicate over the radial grid (%r)' % (preds[:1],))
+    bad = [v_ for v_ in judged.values() if not (v_[0] is True and not (v_[1] is True and v_[2] is True))]
+    run.check(not bad, 'C18.band', fk.qual, 'ring band', 'the mask of a keystone segment contains the interior of its ring and at most one of the two boundary radii (half-open band), on each of %d paths' % len(judged),
+              'the mask of a keystone segment contains BOTH r = %s and r = %s%s: with radial_gap == 0 a sample exactly on the radius shared by two rings belongs to a segment of each ring (two segments claim one sample)'
+              % ((bad[0][3].key(), bad[0][4].key(), '' if bad[0][0] else ' / misses its interior') if bad else ('', '', '')), fk.loc(ring))
 
 
 def mask_memo_rules(run, db):
@@ -251,56 +494,236 @@ def mask_memo_rules(run, db):
             run.ok('C18.union', fi.qual, 'segment masks are rasterised per segment (no in-function memo)')
 
 
-def ids_rules(run, db):
-    """Hexagonal aperture: ring i is numbered after ALL ids of ring i-1, whatever is excluded."""
-    from .common import loop_carried, reaching_at_end, ENTRY
+def _hex_roles_map(db):
+    """{role (attribute the constructor stores it as): local name in the builder} from the positions of the returned tuple."""
     fh = db.func(S + '_composite_hexagonal_aperture')
-    rings = [n for n in walk_no_nested(fh.node) if isinstance(n, ast.For) and 'rings' in ast.unparse(n.iter)]
+    fc = db.func(S + 'CompositeHexagonalAperture.__init__')
+    unp = [n for n in walk_no_nested(fc.node) if isinstance(n, ast.Assign) and isinstance(n.value, ast.Call) and ast.unparse(n.value.func) == '_composite_hexagonal_aperture']
+    rets = [n for n in walk_no_nested(fh.node) if isinstance(n, ast.Return)]
+    if len(unp) != 1 or len(rets) != 1 or not isinstance(rets[0].value, ast.Tuple) or not isinstance(unp[0].targets[0], ast.Tuple) or len(unp[0].targets[0].elts) != len(rets[0].value.elts):
+        raise AnalysisError('hexagonal aperture: constructor unpack / return not found or of different length')
+    return {ast.unparse(t).replace('self.', ''): ast.unparse(r) for t, r in zip(unp[0].targets[0].elts, rets[0].value.elts)}
+
+
+def ids_rules(run, db):
+    """Hexagonal aperture: ring i is numbered after ALL ids of ring i-1, whatever is excluded.  One pass of the ring loop is interpreted
+    with symbolic sequence lengths: the ring has H segments, its ids are an arithmetic run, filtering by a mask gives an unknown length."""
+    from .common import loop_carried, loop_as_function, norm_interp
+    from ..core.interp import Value, Const, Tup, Unknown, _Break, _Continue
+    from ..core.norm import Rat
+    from ..domains.normdom import NormDomain, Sym
+    fh = db.func(S + '_composite_hexagonal_aperture')
+    hrole = _hex_roles_map(db)
+    IDL = hrole.get('segment_ids')
+    per_seg = [hrole.get(k_) for k_ in ('all_centers', 'windows', 'local_coords', 'local_masks', 'segment_ids')]
+    if IDL is None:
+        raise AnalysisError('hexagonal aperture: the constructor stores no segment_ids')
+    rings = [st for st in fh.node.body if isinstance(st, ast.For) and any(isinstance(c_, ast.Call) and isinstance(c_.func, ast.Attribute) and c_.func.attr == 'append'
+                                                                           and ast.unparse(c_.func.value) == IDL for c_ in ast.walk(st))]
     if len(rings) != 1:
         raise AnalysisError('hexagonal aperture: ring loop not found')
     ring = rings[0]
-    carried = loop_carried(ring)
-    # the ring's ids are an arange assigned at the top level of the ring loop; the counter is the name its lower bound is built from
-    idsdef = [st for st in ring.body if isinstance(st, ast.Assign) and isinstance(st.targets[0], ast.Name) and isinstance(st.value, ast.Call) and ast.unparse(st.value.func).endswith('arange') and len(st.value.args) >= 2]
-    if len(idsdef) != 1:
-        raise AnalysisError('hexagonal aperture: `ids = arange(lo, hi)` not found in the ring loop')
-    IDS = idsdef[0].targets[0].id
-    lo_names = [x.id for x in ast.walk(idsdef[0].value.args[0]) if isinstance(x, ast.Name)]
-    if len(lo_names) != 1 or lo_names[0] not in carried:
-        raise AnalysisError('hexagonal aperture: the id counter is not carried from ring to ring (carried: %s)' % sorted(carried))
-    SID = lo_names[0]
-    lo, hi = [ast.unparse(a).replace(' ', '') for a in idsdef[0].value.args[:2]]
-    # which list is counted, and is it still unfiltered at that point?
-    cnt = [n for n in ast.walk(idsdef[0].value.args[1]) if isinstance(n, ast.Call) and ast.unparse(n.func) == 'len']
-    okc = lo == '%s+1' % SID and len(cnt) == 1 and hi == '%s+1+len(%s)' % (SID, ast.unparse(cnt[0].args[0]))
-    counted = ast.unparse(cnt[0].args[0]) if cnt else '?'
-    pos = ring.body.index(idsdef[0])
-    defs_before = [st for st in ring.body[:pos] if isinstance(st, ast.Assign) and ast.unparse(st.targets[0]) == counted]
-    hexdef = [st.targets[0].id for st in ring.body[:pos] if isinstance(st, ast.Assign) and isinstance(st.targets[0], ast.Name) and isinstance(st.value, ast.Call) and ast.unparse(st.value.func) == 'hex_ring']
-    unfiltered = len(defs_before) == 1 and len(hexdef) == 1 and any(isinstance(x, ast.Name) and x.id == hexdef[0] for x in ast.walk(defs_before[0].value)) \
-        and not any(isinstance(x, ast.Name) and x.id == 'exclude' for x in ast.walk(defs_before[0].value)) and not isinstance(defs_before[0].value, ast.Subscript)
-    run.check(okc and unfiltered, 'C18.ids', fh.qual, 'ring ids', 'the ids of a ring are counter+1 .. counter+len(ring), counted over the unfiltered ring (6 i segments)',
-              'ring ids are arange(%s, %s) with `%s` %s: the documented numbering (6 i ids per ring, exclusions leave gaps) is lost' % (lo, hi, counted, 'unfiltered' if unfiltered else 'already filtered by the exclusion mask'), fh.loc(idsdef[0]))
-    reach = reaching_at_end(ring.body, SID)
-    bad = []
-    for d in reach:
-        if d is ENTRY:
-            bad.append('the value it had when the ring started (the counter never advances on some path)')
-        elif isinstance(d, ast.For):
-            bad.append('the inner loop variable of `for %s in %s` (the last NON-EXCLUDED id of the ring; a ring whose last id is excluded, or a fully excluded ring, leaves the counter too low and the next ring re-uses ids)'
-                       % (ast.unparse(d.target), ast.unparse(d.iter)))
-        elif isinstance(d, ast.Assign) and ast.unparse(d.value).replace(' ', '') in ('%s[-1]' % IDS, '%s+len(%s)' % (SID, counted)) and (ast.unparse(d.value).replace(' ', '') == '%s[-1]' % IDS or unfiltered):
-            continue
-        else:
-            bad.append('`%s`' % norm_stmt(d))
-    run.check(not bad, 'C18.ids', fh.qual, 'ring-to-ring counter', 'at the end of every ring the counter is the last id of the unfiltered ring (`ids[-1]`), on every path',
-              'at the end of a ring the id counter can be %s' % '; or '.join(bad), fh.loc(ring))
-    # the per-segment id appended is the loop variable of the filtered (valid_ids, centers) pair
-    bp = match_all(ring.body, ['V_im = ~np.isin(%s, exclude, assume_unique=True)' % IDS, 'V_valid = %s[V_im]' % IDS, 'V_cen = V_cen[V_im]'])
-    inner = [n for n in ring.body if isinstance(n, ast.For)]
-    ok = bp is not None and len(inner) == 1 and ast.unparse(inner[0].iter).replace(' ', '') == 'zip(%s,%s)' % (bp['V_valid'], bp['V_cen']) \
-        and isinstance(inner[0].target, ast.Tuple) and len(inner[0].target.elts) == 2 and ast.unparse(inner[0].target.elts[0]) == SID
-    run.check(ok, 'C18.ids', fh.qual, 'id/centre pairing', 'ids and centres are filtered by the same exclusion mask and walked together', 'ids and centres are no longer filtered by one mask and zipped', fh.loc(ring))
+    carried = sorted(loop_carried(ring) - set(per_seg))
+    if not carried:
+        raise AnalysisError('hexagonal aperture: no counter is carried from ring to ring')
+    lf, params = loop_as_function(fh, ring, carried + [IDL])
+
+    class Seq(Value):
+        """a sequence with `n` entries (Rat); `what`: 'ring' (the unfiltered ring or something computed from each of its entries) or 'ids'"""
+        def __init__(self, n, what, lo=None):
+            self.n, self.what, self.lo = n, what, lo
+
+        def __repr__(self):
+            return '%s[%s]' % (self.what, self.n.key() if self.n is not None else '?')
+
+    class Mask(Value):
+        def __init__(self, tok):
+            self.tok = tok
+
+    class Filt(Value):
+        def __init__(self, base, mask):
+            self.base, self.mask = base, mask
+
+    class Zip(Value):
+        def __init__(self, members):
+            self.members = members
+
+    class Elem(Value):
+        def __init__(self, src, slot=None):
+            self.src, self.slot = src, slot
+
+    class IdDomain(NormDomain):
+        def __init__(self):
+            super().__init__()
+            self.zips, self.runs = [], []
+
+        def param(self, fi, name, default):
+            return None
+
+        def call_prysm(self, fi, args, kw, node):
+            if fi.name == 'hex_ring':
+                return Seq(Rat(self.R.atom('H')), 'ring')
+            return Unknown(fi.name)
+
+        def comprehension(self, node, frame):
+            if len(node.generators) == 1 and not node.generators[0].ifs and not isinstance(node, ast.DictComp):
+                src = self.interp.ev(node.generators[0].iter, frame)
+                if isinstance(src, Seq):
+                    return Seq(src.n, 'ring')
+            return None
+
+        def call_ext(self, dotted, args, kwargs, node):
+            last = dotted.rsplit('.', 1)[-1]
+            a0 = args[0] if args else None
+            if last in ('array', 'asarray', 'list', 'tuple') and isinstance(a0, (Seq, Filt)):
+                return a0
+            if dotted == 'builtins.len' and isinstance(a0, Seq):
+                return self.lift(a0.n)
+            if dotted == 'builtins.len' and isinstance(a0, Filt):
+                return Unknown('length after filtering')
+            if last == 'arange' and len(args) >= 2:
+                lo, hi = self.rat(args[0]), self.rat(args[1])
+                if lo is None or hi is None:
+                    r = Seq(None, 'ids', lo)
+                else:
+                    r = Seq(hi - lo, 'ids', lo)
+                self.runs.append((r, args[1], node))
+                return r
+            if last == 'isin' and isinstance(a0, Seq):
+                return Mask(object())
+            if dotted == 'builtins.zip' and args and all(isinstance(a, (Seq, Filt)) for a in args):
+                return Zip(list(args))
+            if dotted == 'builtins.enumerate':
+                return Unknown('enumerate')
+            return super().call_ext(dotted, args, kwargs, node)
+
+        def unary(self, op, a, node):
+            if isinstance(a, Mask):
+                return a
+            return super().unary(op, a, node)
+
+        def subscript(self, v, idx, node):
+            if isinstance(v, Seq) and isinstance(idx, Mask):
+                return Filt(v, idx)
+            if isinstance(v, Seq) and v.what == 'ids' and isinstance(idx, Const) and idx.v == -1 and v.n is not None:
+                return self.lift(v.lo + v.n - 1)
+            if isinstance(v, Seq) and v.what == 'ids' and isinstance(idx, Const) and idx.v == 0 and v.lo is not None:
+                return self.lift(v.lo)
+            if isinstance(v, (Seq, Filt)) and type(idx).__name__ == 'Slice':
+                return Seq(None, 'part of ' + (v.what if isinstance(v, Seq) else 'a filtered sequence'))
+            if isinstance(v, (Seq, Filt, Elem)):
+                return Unknown('entry of a sequence')
+            return super().subscript(v, idx, node)
+
+        def method(self, v, name, args, kwargs, node):
+            if isinstance(v, (Seq, Filt)) and name in ('tolist', 'copy', 'astype'):
+                return v
+            return super().method(v, name, args, kwargs, node) if isinstance(v, Sym) else None
+
+        def loop(self, node, frame):
+            if not isinstance(node, ast.For):
+                return False
+            src = self.interp.ev(node.iter, frame)
+            if isinstance(src, Zip) and isinstance(node.target, ast.Tuple) and len(node.target.elts) == len(src.members):
+                self.zips.append((src, node))
+                for k_, e_ in enumerate(node.target.elts):
+                    self.interp.assign(e_, Elem(src, k_), frame, node)
+            elif isinstance(src, (Seq, Filt)):
+                self.interp.assign(node.target, Elem(src), frame, node)
+            else:
+                return False
+            # zero passes, or one (what a pass leaves behind is what matters; every pass leaves the same kind of thing)
+            if self.interp.choose(2, 'loop `%s` runs' % ast.unparse(node.iter)[:40]) == 1:
+                try:
+                    self.interp.exec_block(node.body, frame)
+                except (_Break, _Continue):
+                    pass
+            return True
+
+        def compare(self, op, a, b, node):
+            if isinstance(a, Elem) or isinstance(b, Elem):
+                return None
+            return super().compare(op, a, b, node)
+
+        def store_subscript(self, target, idx, val, node):
+            return True
+
+    def go():
+        dom = IdDomain()
+        from ..core.interp import Interp
+        from ..domains.normdom import install_pi
+        it = install_pi(Interp(db, dom))
+        kw = {}
+        for p_ in params:
+            if p_ in carried:
+                kw[p_] = dom.sym('carried_' + p_)
+            elif p_ in per_seg:
+                kw[p_] = Tup([], 'list')
+            else:
+                kw[p_] = Unknown(p_)
+        return it, dom, [q for q in it.run(lf, kwargs=lambda: {k_: (Tup([], 'list') if isinstance(v_, Tup) else v_) for k_, v_ in kw.items()}) if q.outcome == 'return']
+    it, dom, paths = go()
+    if not paths:
+        raise AnalysisError('hexagonal aperture: no path through the ring loop body')
+    R = dom.R
+    H = Rat(R.atom('H'))
+    runs = {id(n_): (r_, n_) for r_, _, n_ in dom.runs}
+    if len(runs) != 1:
+        raise AnalysisError('hexagonal aperture: expected one arithmetic run of ids per ring, found %d' % len(runs))
+    idrun, idnode = list(runs.values())[0]
+    # (1) the ring's ids: counter+1 .. counter+H, H the length of the unfiltered ring
+    K = None
+    if idrun.lo is not None:
+        for c_ in carried:
+            if idrun.lo == Rat(R.atom('carried_' + c_)) + 1:
+                K = c_
+    okn = idrun.n is not None and idrun.n == H
+    run.check(K is not None and okn, 'C18.ids', fh.qual, 'ring ids', 'the ids of a ring are counter+1 .. counter+len(ring), counted over the unfiltered ring (6 i segments)',
+              'ring ids start at %s and there are %s of them (expected counter+1 and H, the length of the whole ring): the documented numbering (6 i ids per ring, exclusions leave gaps) is lost'
+              % (idrun.lo.key() if idrun.lo is not None else 'something not followed', idrun.n.key() if idrun.n is not None else 'a number that depends on the exclusions'), fh.loc(idnode))
+    # (2) the counter at the end of a ring, on every path
+    if K is not None:
+        k0 = Rat(R.atom('carried_' + K))
+        bad = []
+        for q in paths:
+            v = q.value.items[carried.index(K)]
+            rv = dom.rat(v)
+            if rv is not None and rv == k0 + H:
+                continue
+            if isinstance(v, Elem):
+                bad.append('the inner loop variable (the last NON-EXCLUDED id of the ring; a ring whose last id is excluded, or a fully excluded ring, leaves the counter too low and the next ring re-uses ids)')
+            elif rv is not None:
+                bad.append('%s' % rv.key().replace('carried_', ''))
+            else:
+                bad.append('a value that is not followed (%r)' % (v,))
+        run.check(not bad, 'C18.ids', fh.qual, 'ring-to-ring counter', 'at the end of every ring the counter is the last id of the unfiltered ring (counter + H), on every path',
+                  'at the end of a ring the id counter can be %s' % '; or '.join(sorted(set(bad))), fh.loc(ring))
+    # (3) ids and centres walked together: the members of the zip are the id run and the ring, filtered by one mask (or not at all)
+    seen = {}
+    for z, n_ in dom.zips:
+        seen[id(n_)] = (z, n_)
+    if not seen:
+        raise AnalysisError('hexagonal aperture: the per-segment loop over (id, centre) pairs is not followed')
+    for z, n_ in seen.values():
+        bases = [m_.base if isinstance(m_, Filt) else m_ for m_ in z.members]
+        masks = [m_.mask.tok if isinstance(m_, Filt) else None for m_ in z.members]
+        ok = len(set(map(id, masks))) == 1 and any(b_ is idrun for b_ in bases) and all(b_.n is not None and b_.n == H for b_ in bases)
+        run.check(ok, 'C18.ids', fh.qual, 'id/centre pairing', 'ids and centres are filtered by the same exclusion mask and walked together',
+                  'ids and centres are walked together after being filtered differently (or not being the whole ring): %s' % [('filtered ' if isinstance(m_, Filt) else '') + repr(b_) for m_, b_ in zip(z.members, bases)], fh.loc(n_))
+    # the recorded id is the id member of the pair
+    okid, nid = True, 0
+    for q in paths:
+        lst = q.value.items[len(carried)]
+        if not isinstance(lst, Tup):
+            raise AnalysisError('hexagonal aperture: the id list is not followed through the ring loop')
+        for e in lst.items:
+            nid += 1
+            src = e.src.members[e.slot] if isinstance(e, Elem) and isinstance(e.src, Zip) else (e.src if isinstance(e, Elem) else None)
+            base = src.base if isinstance(src, Filt) else src
+            okid = okid and base is idrun
+    if not nid:
+        raise AnalysisError('hexagonal aperture: no id is recorded on any path through the ring loop')
+    run.check(okid, 'C18.ids', fh.qual, 'recorded id', 'the id recorded for a segment is the entry of the ring\'s id run it is paired with', 'the id recorded for a segment is not an entry of the ring\'s id run', fh.loc(ring))
     # keystone: one counter, advanced once per segment, unconditionally
     fk = db.func(S + '_composite_keystone_aperture')
     rk_ = [n for n in walk_no_nested(fk.node) if isinstance(n, ast.Return)]
@@ -555,6 +978,164 @@ def boundary_rules(run, db):
               'the hull of %s is queried with %s and a sample counts as inside when %s' % ([keyp(q_[0]) for q_ in queries], [keyp(q_[1]) for q_ in queries], inside.key() if isinstance(inside, Pred) else repr(inside)), f.loc())
 
 
+def hex_roles(run, db, fh, fc, unpack, roles):
+    """Interpret _composite_hexagonal_aperture with tokens for windows, local grids, masks and loop elements (loops run once); the value
+    returned at each position must be what the constructor stores it as."""
+    from ..core.interp import Interp, Domain, Value, Const, Tup, Unknown, _Break, _Continue
+    from .common import bind_call
+
+    class Tok(Value):
+        def __init__(self, kind, *args):
+            self.kind, self.args = kind, args
+
+        def __eq__(self, o):
+            return isinstance(o, Tok) and (self.kind, len(self.args)) == (o.kind, len(o.args)) and all(a is b or a == b for a, b in zip(self.args, o.args))
+
+        def __hash__(self):
+            return hash(self.kind)
+
+        def __repr__(self):
+            return '%s(%s)' % (self.kind, ', '.join(map(repr, self.args)))
+
+    def same(a, b):
+        if a is b:
+            return True
+        if isinstance(a, Tok) and isinstance(b, Tok):
+            return a == b
+        if isinstance(a, Const) and isinstance(b, Const):
+            return a.v == b.v
+        if isinstance(a, Tup) and isinstance(b, Tup):
+            return len(a.items) == len(b.items) and all(same(x_, y_) for x_, y_ in zip(a.items, b.items))
+        return False
+
+    class SegDomain(Domain):
+        def param(self, fi, name, default):
+            if fi is fh and name in ('x', 'y'):
+                return Tok('grid', name)
+            if fi is fh and name == 'segment_diameter':
+                return Tok('size', name)
+            return None
+
+        def call_prysm(self, fi, args, kw, node):
+            if fi.name == '_local_window':
+                b = bind_call(fi, args, kw)
+                return Tok('window', b.get('center'))
+            if fi.name == 'regular_polygon':
+                b = bind_call(fi, args, kw)
+                return Tok('mask', b.get('x'), b.get('y'), b.get('center'))
+            if fi.module != fh.module or fi.name in ('hex_ring', 'hex_to_xy'):
+                return Unknown(fi.name)
+            return None
+
+        def subscript(self, v, idx, node):
+            if isinstance(v, Tok) and v.kind == 'grid' and isinstance(idx, Tok) and idx.kind == 'window':
+                return Tok('local', v.args[0], idx)
+            if isinstance(v, Tok) and v.kind == 'elem' and isinstance(idx, Const):
+                return Tok('comp', v, idx.v)
+            return None
+
+        def binop(self, op, a, b, node):
+            if isinstance(op, ast.Sub) and isinstance(a, Tok) and a.kind == 'local':
+                if isinstance(b, Tok) and b.kind == 'comp':
+                    return Tok('shifted', a, b)
+                if isinstance(b, Const) and b.v == 0:
+                    return a
+            if isinstance(op, (ast.Mult, ast.Div)) and isinstance(a, Tok) and a.kind == 'size' and not isinstance(b, Tok):
+                return a
+            if isinstance(op, ast.Mult) and isinstance(b, Tok) and b.kind == 'size' and not isinstance(a, Tok):
+                return b
+            return None
+
+        def loop(self, node, frame):
+            if isinstance(node, ast.For):
+                tg = node.target
+                if isinstance(tg, ast.Name):
+                    frame.env[tg.id] = Tok('elem', None, id(node))
+                elif isinstance(tg, ast.Tuple):
+                    for k_, e_ in enumerate(tg.elts):
+                        for leaf in ast.walk(e_):
+                            if isinstance(leaf, ast.Name):
+                                frame.env[leaf.id] = Tok('elem', k_, id(node))
+            try:
+                self.interp.exec_block(node.body, frame)
+            except (_Break, _Continue):
+                pass
+            return True
+
+        def store_subscript(self, target, idx, val, node):
+            return True
+
+    dom = SegDomain()
+    it = Interp(db, dom)
+    paths = [p for p in it.run(fh) if p.outcome == 'return']
+    if not paths:
+        raise AnalysisError('hexagonal aperture: no returning path')
+    pos = {r: k for k, r in enumerate(roles)}
+    problems, judged = [], 0
+    for p in paths:
+        v = p.value
+        if not isinstance(v, Tup) or len(v.items) != len(roles):
+            raise AnalysisError('hexagonal aperture: the returned value is not a %d-tuple on path %s' % (len(roles), p.conds))
+        get = lambda r: v.items[pos[r]]
+        lists = {r: get(r) for r in ('windows', 'local_coords', 'local_masks', 'segment_ids')}
+        if not all(isinstance(l_, Tup) for l_ in lists.values()):
+            raise AnalysisError('hexagonal aperture: a per-segment list is not followed to the return (%s)' % {r: type(l_).__name__ for r, l_ in lists.items()})
+        n = {len(l_.items) for l_ in lists.values()}
+        if len(n) != 1:
+            continue        # lock-step is decided by C18.lockstep above
+        for k in range(n.pop()):
+            w, lc, m, sid = [lists[r].items[k] for r in ('windows', 'local_coords', 'local_masks', 'segment_ids')]
+            kinds = {r: getattr(x_, 'kind', None) for r, x_ in (('windows', w), ('local_masks', m), ('segment_ids', sid))}
+            # a value that is positively another role's
+            if kinds['windows'] != 'window':
+                if kinds['windows'] in ('mask', 'elem', 'local', 'shifted') or isinstance(w, Tup):
+                    problems.append('the list stored as windows holds %r' % (w,))
+                    continue
+                raise AnalysisError('hexagonal aperture: entry %d of the windows list is not followed (%r)' % (k, w))
+            c = w.args[0]
+            judged += 1
+            if not (isinstance(lc, Tup) and len(lc.items) == 2):
+                problems.append('the list stored as local_coords holds %r, not an (x, y) pair' % (lc,))
+                continue
+            for axis, (g, e) in enumerate(zip(('x', 'y'), lc.items)):
+                base = e.args[0] if isinstance(e, Tok) and e.kind == 'shifted' else e
+                if not (isinstance(base, Tok) and base.kind == 'local'):
+                    raise AnalysisError('hexagonal aperture: local coordinate %d of entry %d is not followed (%r)' % (axis, k, e))
+                if base.args[0] != g or not same(base.args[1], w):
+                    problems.append("local coordinate %d of a segment is the %s grid inside %s, not the %s grid inside the segment's own window" % (axis, base.args[0], 'another window' if base.args[0] == g else 'a window', g))
+                centred_at_origin = isinstance(c, Tup) and all(isinstance(z, Const) and z.v == 0 for z in c.items)
+                if isinstance(e, Tok) and e.kind == 'shifted':
+                    sh = e.args[1]
+                    if not (same(sh.args[0], c) and sh.args[1] == axis):
+                        problems.append("local coordinate %d of a segment is shifted by component %s of %r, not by component %d of the segment's own centre" % (axis, sh.args[1], sh.args[0], axis))
+                elif not centred_at_origin:
+                    problems.append('local coordinate %d of a segment is not measured from the segment centre' % axis)
+            if kinds['local_masks'] == 'mask':
+                mx, my, mc = m.args
+                okm = isinstance(mx, Tok) and isinstance(my, Tok) and mx.kind == 'local' and my.kind == 'local' and mx.args[0] == 'x' and my.args[0] == 'y' \
+                    and same(mx.args[1], w) and same(my.args[1], w) and same(mc, c)
+                if not okm:
+                    problems.append("a segment's mask is rasterised on %r, %r about %r, not on its own window's grids about its own centre" % (mx, my, mc))
+            elif kinds['local_masks'] in ('window', 'elem', 'local', 'shifted'):
+                problems.append('the list stored as local_masks holds %r' % (m,))
+            if kinds['segment_ids'] == 'elem':
+                if isinstance(c, Tok) and c.kind == 'elem' and (sid.args[0] == c.args[0] and sid.args[1] == c.args[1]):
+                    problems.append('the id recorded for a segment is the same loop element as its centre')
+            elif kinds['segment_ids'] in ('window', 'mask', 'local', 'shifted'):
+                problems.append('the list stored as segment_ids holds %r' % (sid,))
+        vt = get('vtov')
+        if isinstance(vt, (Tup,)) or (isinstance(vt, Tok) and vt.kind != 'size'):
+            problems.append('the value stored as the vertex-to-vertex size is %r' % (vt,))
+        ac = get('all_centers')
+        if isinstance(ac, Tup) and any(isinstance(x_, Tok) and x_.kind in ('window', 'mask', 'local', 'shifted') for x_ in ac.items):
+            problems.append('the list stored as all_centers holds %r' % (ac.items[:1],))
+    if not judged:
+        raise AnalysisError('hexagonal aperture: no per-segment entry reached the return on any path')
+    run.check(not problems, 'C18.lockstep', fc.qual, 'unpack order', 'each position of the returned tuple holds what the constructor stores it as (vertex-to-vertex size, centres, windows, centred local coordinates, '
+              'masks on the window\'s own grids, ids, aperture): %d per-segment entries judged' % judged,
+              'the tuple returned by _composite_hexagonal_aperture is unpacked as %s, but %s' % (roles, '; '.join(sorted(set(problems))[:3])), fc.loc(unpack))
+
+
 def check(run, db, tier):
     run.trust('statement-order dataflow over the per-segment loop bodies (appends, the OR into the aperture, name rebinding)')
     run.assume('NARROW claim for the composite apertures: disjointness and areas of rasterised segments are geometry of values and are not decided; the bookkeeping that ties windows, masks, ids and the aperture together is',
@@ -613,24 +1194,59 @@ def check(run, db, tier):
                                                                  ('wholeBitAnd', lambda v: v in inv_spiders),
                                                                  # the spider removal spelled as a masked store: mask[spiders] = False
                                                                  ('sub=', lambda v, sl: sl in tainted and v in ('False', '0'))])
-    # hexagonal: centre segment branch initialises all lists together
-    ifs = [n for n in walk_no_nested(fh.node) if isinstance(n, ast.If) and 'exclude' in ast.unparse(n.test) and n.orelse]
-    if not ifs:
-        raise AnalysisError('hexagonal aperture: centre-segment branch not found')
-    names = lambda body: sorted({t.id for st in body if isinstance(st, ast.Assign) for t in st.targets if isinstance(t, ast.Name)})
-    a, b = names(ifs[0].body), names(ifs[0].orelse)
-    lens = lambda body: {t.id: len(st.value.elts) for st in body if isinstance(st, ast.Assign) and isinstance(st.value, ast.List) for t in st.targets if isinstance(t, ast.Name)}
-    la, lb = lens(ifs[0].body), lens(ifs[0].orelse)
-    run.check(a == b and len(set(la.values())) == 1 and len(set(lb.values())) == 1, 'C18.lockstep', fh.qual, 'centre segment', 'both branches initialise the same lists with equal lengths',
-              'the centre-segment branches initialise different lists or lengths: %s / %s' % (la, lb), fh.loc(ifs[0]))
-    # what sits at each returned position is what its role says (the lists' contents are decided by lockstep/union above):
-    # local coordinates are the window coordinates minus the segment centre, ids are the loop's id, the centres accumulate the ring centres
-    bh = match_all(fh.node, ['%s.append((V_xx - V_c[0], V_yy - V_c[1]))' % hrole['local_coords'], '%s.append(V_sid)' % hrole['segment_ids'], 'V_xx = x[V_lw]', 'V_yy = y[V_lw]',
-                             '%s.append(V_lw)' % hrole['windows'], 'V_lw = _local_window(V_cy, V_cx, V_c, V_dx, V_sps, x, y)'])
-    okv = any(isinstance(n, ast.Assign) and isinstance(n.targets[0], ast.Name) and n.targets[0].id == hrole['vtov'] and 'segment_diameter' in ast.unparse(n.value) for n in walk_no_nested(fh.node))
-    okc = any(isinstance(n, ast.AugAssign) and isinstance(n.target, ast.Name) and n.target.id == hrole['all_centers'] and 'tolist' in ast.unparse(n.value) for n in walk_no_nested(fh.node))
-    run.check(bh is not None and okv and okc, 'C18.lockstep', fc.qual, 'unpack order', 'each position of the returned tuple holds what the constructor stores it as (vertex-to-vertex size, centres, windows, centred local coordinates, masks, ids, aperture)',
-              'the tuple returned by _composite_hexagonal_aperture is unpacked as %s, but the value at one of those positions is not what that name says' % hrole, fc.loc(unp[0]))
+    # hexagonal: before the ring loop, whatever the centre segment's exclusion decides, the per-segment lists have one common length
+    # (0 or 1 entries each): decided by following list lengths through the statements ahead of the ring loop, on every branch
+    per_seg = [hrole[k_] for k_ in ('all_centers', 'windows', 'local_coords', 'local_masks', 'segment_ids')]
+    ring_loop = next((st for st in fh.node.body if isinstance(st, (ast.For, ast.While)) and any(isinstance(c_, ast.Call) and isinstance(c_.func, ast.Attribute) and c_.func.attr == 'append'
+                                                                                                  and ast.unparse(c_.func.value) in per_seg for c_ in ast.walk(st))), None)
+    if ring_loop is None:
+        raise AnalysisError('hexagonal aperture: the loop over the rings (appending to the per-segment lists) is not a top-level statement')
+
+    def lengths(stmts, state):
+        """all (state after the statements) reachable; a state maps list name -> number of entries"""
+        states = [dict(state)]
+        for st in stmts:
+            if st is ring_loop:
+                break
+            nxt = []
+            for cur in states:
+                if isinstance(st, ast.If):
+                    nxt.extend(lengths(st.body, cur))
+                    nxt.extend(lengths(st.orelse, cur))
+                    continue
+                if isinstance(st, ast.Assign) and isinstance(st.value, (ast.List, ast.Tuple)):
+                    for t_ in st.targets:
+                        if isinstance(t_, ast.Name) and t_.id in per_seg:
+                            cur[t_.id] = len(st.value.elts)
+                        elif isinstance(t_, ast.Tuple) and isinstance(st.value, ast.Tuple) and len(t_.elts) == len(st.value.elts):
+                            for tt, vv in zip(t_.elts, st.value.elts):
+                                if isinstance(tt, ast.Name) and tt.id in per_seg and isinstance(vv, ast.List):
+                                    cur[tt.id] = len(vv.elts)
+                elif isinstance(st, ast.Assign) and any(isinstance(t_, ast.Name) and t_.id in per_seg for t_ in st.targets):
+                    raise AnalysisError('hexagonal aperture: `%s` initialises a per-segment list with something other than a list display' % norm_stmt(st))
+                elif isinstance(st, ast.AugAssign) and isinstance(st.target, ast.Name) and st.target.id in per_seg:
+                    if not isinstance(st.op, ast.Add) or not isinstance(st.value, (ast.List, ast.Tuple)) or st.target.id not in cur:
+                        raise AnalysisError('hexagonal aperture: `%s` ahead of the ring loop is not followed' % norm_stmt(st))
+                    cur[st.target.id] += len(st.value.elts)
+                elif isinstance(st, ast.Expr) and isinstance(st.value, ast.Call) and isinstance(st.value.func, ast.Attribute) and ast.unparse(st.value.func.value) in per_seg:
+                    nm_, meth = ast.unparse(st.value.func.value), st.value.func.attr
+                    if meth != 'append' or nm_ not in cur:
+                        raise AnalysisError('hexagonal aperture: `%s` ahead of the ring loop is not followed' % norm_stmt(st))
+                    cur[nm_] += 1
+                elif isinstance(st, (ast.For, ast.While, ast.With, ast.Try)) and any(isinstance(x_, ast.Name) and x_.id in per_seg for x_ in ast.walk(st)):
+                    raise AnalysisError('hexagonal aperture: a compound statement ahead of the ring loop touches the per-segment lists')
+                nxt.append(cur)
+            states = nxt
+        return states
+    finals = lengths(fh.node.body, {})
+    bad_states = [st_ for st_ in finals if set(st_) != set(per_seg) or len(set(st_.values())) != 1]
+    if not any(set(st_) == set(per_seg) for st_ in finals):
+        raise AnalysisError('hexagonal aperture: the per-segment lists are not all initialised ahead of the ring loop (%s)' % finals)
+    run.check(not bad_states and {tuple(set(st_.values()))[0] for st_ in finals} <= {0, 1}, 'C18.lockstep', fh.qual, 'centre segment',
+              'ahead of the ring loop the per-segment lists have one common length on every branch (centre segment kept: 1 entry each, excluded: none)',
+              'ahead of the ring loop the per-segment lists have different lengths on some branch: %s -- windows, masks, ids, coordinates and centres are no longer index-aligned' % (bad_states or finals), fh.loc(ring_loop))
+    # what sits at each returned position is what its role says: decided on the returned value of the builder, interpreted with tokens
+    run.group(hex_roles, run, db, fh, fc, unp[0], list(hrole))
     fkc = db.func(S + 'CompositeKeystoneAperture.__init__')
     bk = match_all(fkc.node, ["self.segment_windows = V_ks['windows']", "self.segment_masks = V_ks['masks']", "self.center_mask = V_cs['mask']", "self.center_window = V_cs['window']"])
     run.check(bk is not None and bk['V_ks'] != bk['V_cs'], 'C18.lockstep', fkc.qual, 'dict wiring', 'windows/masks travel under matching keys from the builder to the object', 'keystone builder/constructor key wiring changed', fkc.loc())
@@ -648,4 +1264,4 @@ def check(run, db, tier):
     run.require_instances('C18.boundary', 21)
     run.require_instances('C18.lockstep', 15)
     run.require_instances('C18.union', 6)
-    run.require_instances('C18.confine', 6)
+    run.require_instances('C18.confine', 5)
